@@ -105,3 +105,19 @@ CASES += [
     t("resonant Matsubara term skipped by a two-sided test", _CFP, _MS,
       "            n = i+1\n            if numpy.abs(nut*n - 1.0/ctime) < 1.0e-300:\n                continue\n            msf += nut*n*numpy.exp(-nut*n*time)/((nut*n)**2-(1.0/ctime)**2)\n"),
 ]
+
+_RF6 = "quantarhei/qm/liouvillespace/redfieldfoerster.py"
+_LAMB6 = ("            for aa in range(1,Na):\n                for bb in range(1,Na):\n                    # Here we assume no correlation between sites \n"
+          "                    lamb[aa] += (SS[bb,aa]**4)*lamb_sites[bb]\n")
+CASES += [
+    {"name": "exciton reorganisation energies vectorised without the transpose (seeded change of round 8)", "kind": "mutant", "rule": "C06-R11", "edits": [
+        (_RF6, _LAMB6, "            lamb = numpy.dot(SS**4, lamb_sites)\n", 1)]},
+    {"name": "exciton reorganisation energies weighted with the transposed element", "kind": "mutant", "rule": "C06-R11", "edits": [
+        (_RF6, "                    lamb[aa] += (SS[bb,aa]**4)*lamb_sites[bb]\n", "                    lamb[aa] += (SS[aa,bb]**4)*lamb_sites[bb]\n", 1)]},
+    {"name": "exciton line-shape functions weighted with the transposed element", "kind": "mutant", "rule": "C06-R11", "edits": [
+        (_RF6, "                    gvals[aa,:] += (SS[bb,aa]**4)*Gt[bb,:]  \n", "                    gvals[aa,:] += (SS[aa,bb]**4)*Gt[bb,:]  \n", 1)]},
+    {"name": "exciton reorganisation energies vectorised with the transpose", "kind": "twin", "edits": [
+        (_RF6, _LAMB6, "            lamb = numpy.dot((SS**4).T, lamb_sites)\n", 1)]},
+    {"name": "exciton reorganisation energies vectorised with einsum", "kind": "twin", "edits": [
+        (_RF6, _LAMB6, "            lamb = numpy.einsum(\"na,n->a\", SS**4, lamb_sites)\n", 1)]},
+]
